@@ -63,3 +63,37 @@ func VerifC13AfterToggle() {
 	got, found := k.GetClientState(dst, chain)
 	rt.Assert("G2-toggled-client-preserved", found && got.ClientType() == cs1.ClientType())
 }
+
+// VerifC13AfterUpgrade: a client created and then upgraded (same type, both through the keeper's own CreateClient /
+// UpgradeClient): the export passes the module's genesis validation and survives the round trip.
+func VerifC13AfterUpgrade() {
+	rt.Opt("structured-keys")
+	rt.RegisterInterfaces(types.RegisterInterfaces)
+	rt.RegisterInterfaces(tsstypes.RegisterInterfaces)
+	rt.RegisterInterfaces(tmtypes.RegisterInterfaces)
+	rt.RegisterInterfaces(ethtypes.RegisterInterfaces)
+	k := genesisKeeper()
+	src := rt.EmptyCtx()
+	chain := "chain-a"
+	k.SetChainName(src, "teleport")
+	kind := rt.IntRange("type", 0, 2)
+	rt.Assume(kind != 1) // Tendermint and TSS (see VerifC13AfterToggle)
+	cs0, cons0 := c13Client(kind, "old")
+	cs1, cons1 := c13Client(kind, "new")
+	rt.Assume(cs0.Validate() == nil && cons0.ValidateBasic() == nil && cs1.Validate() == nil && cons1.ValidateBasic() == nil)
+	rt.Assume(k.CreateClient(src, chain, cs0, cons0) == nil)
+	rt.Assume(k.UpgradeClient(src, chain, cs1, cons1) == nil)
+	if kind == 2 {
+		rt.Reach("tss-upgraded")
+	} else {
+		rt.Reach("tendermint-upgraded")
+	}
+	gs := ExportGenesis(src, k)
+	rt.Assert("G1-export-after-upgrade-passes-validation", gs.Validate() == nil)
+	dst := rt.EmptyCtx()
+	if rt.NoPanic("G2-import-after-upgrade-does-not-panic", func() { InitGenesis(dst, k, gs) }) {
+		return
+	}
+	got, found := k.GetClientState(dst, chain)
+	rt.Assert("G2-upgraded-client-preserved", found && got.ClientType() == cs1.ClientType())
+}
